@@ -202,6 +202,52 @@ func encodeCmd(args []string) error {
 		}
 	})
 
+	// ---- EncodeColor of premultiplied linear pixels, translucent ones included: the channel that
+	// comes back is the 16-bit encoder's result at x = channel/65535 (un-premultiplying and
+	// premultiplying again cancel; the law's half table step absorbs the float32 rounding of the two)
+	if !*light {
+		type ec struct {
+			name, curve string
+			f           func(color.Color) color.RGBA64
+		}
+		rngE := rand.New(rand.NewSource(*seed*977 + 5))
+		for _, sp := range []ec{{"srgb", "srgb", srgb.EncodeColor}, {"adobergb", "adobergb", adobergb.EncodeColor},
+			{"prophotorgb", "prophotorgb", prophotorgb.EncodeColor}, {"displayp3", "srgb", displayp3.EncodeColor}} {
+			for _, a := range []int{65535, 65534, 65279, 61000, 49153, 40000, 32769, 32768, 32767, 20000, 4097, 300} {
+				nper := 60
+				if *tier == "thorough" {
+					nper = 1500
+				}
+				for i := 0; i < nper; i++ {
+					var r int
+					switch i % 4 {
+					case 0:
+						r = 1 + rngE.Intn(600) // the steep toe: a table step is many codes
+					case 1:
+						r = rngE.Intn(a + 1)
+					case 2:
+						r = a - rngE.Intn(1+a/50)
+					default:
+						r = 1 + rngE.Intn(1+a/8)
+					}
+					if r > a {
+						r = a
+					}
+					o := sp.f(color.RGBA64{R: uint16(r), G: uint16(a - r), B: uint16(r / 2), A: uint16(a)})
+					for _, pr := range [][2]int{{r, int(o.R)}, {a - r, int(o.G)}, {r / 2, int(o.B)}} {
+						x := float32(pr[0]) / 65535
+						ev := pointEvent(encFn{name: sp.name + ".EncodeColor(RGBA64, alpha " + fmt.Sprint(a) + ")", fn: "to16", curve: sp.curve, n: 65535, steps: 65535}, x, pr[1], -1)
+						if ev["xclass"] == "in" {
+							lo, hi, _, _ := numlog.Fixed(float64(pr[0])/65535, 18)
+							ev["xlo"], ev["xhi"] = lo, hi
+						}
+						sink.put(ev)
+					}
+				}
+			}
+		}
+	}
+
 	// ---- the same law reached through the colour types of all four spaces ----
 	rng := rand.New(rand.NewSource(*seed))
 	nag := 3000
